@@ -294,6 +294,24 @@ pub fn scenario(id: u64, seed: u64, thorough: bool) -> Vec<Value> {
             }
         }
     }
+    // directed ending (every fourth scenario): a service that is announced is registered again with changed data and the
+    // daemon is shut down while the new data is still being probed - the goodbye for what was announced is owed all the same
+    if id % 4 == 1 && !registered.is_empty() {
+        t += 2500;
+        s.run_until(t);
+        let mut sv = registered[0].clone();
+        sv.props.push(("z".into(), "1".into()));
+        registered[0] = sv.clone();
+        s.register(d, sv.info());
+        s.kick(d);
+        t += 100 + (id % 5) * 120;
+        s.run_until(t);
+        s.shutdown(d);
+        s.kick(d);
+        t += 1500;
+        s.run_until(t);
+        return s.finish();
+    }
     t += 3000;
     s.run_until(t);
     if r.chance(1, 2) {
